@@ -52,6 +52,13 @@ SKELS = [
     ['T', 'comment', 'E', 'T', '/comment', 'E', 'T'],
     ['T', 'var v', 'T', 'call v', 'T', 'var v', 'E'],
     ['if x', 'E', 'if y', 'E', 'T', '/if', 'E', 'else', 'E', 'unless y', 'E', 'T', '/unless', 'E', '/if', 'E', 'T'],
+    # line ends behind tags that are not block tags (first thing in the source, first thing in a body, in the middle): kept
+    ['call v', 'E', 'T'],
+    ['var v', 'E', 'T', 'call v', 'E', 'T'],
+    ['T', 'call v', 'E', 'var v', 'E'],
+    ['if x', 'E', 'call v', 'E', 'T', '/if', 'E', 'T'],
+    ['in s', 'E', 'var v', 'E', 'call v', 'E', '/in', 'E', 'call v', 'E'],
+    ['try', 'E', 'call v', 'E', 'except', 'E', 'var v', 'E', '/try', 'E', 'var v', 'E', 'T'],
 ]
 BLOCKS = ('if', 'in', 'unless', 'with', 'let', 'try', 'comment')
 
